@@ -49,6 +49,15 @@ static void su_AB(Scn &s) {
   s.M.push_back(make_mzd(s.rnd(s.m, s.n, 3)));
 }
 static void su_A(Scn &s) { s.M.push_back(make_mzd(s.rnd(s.m, s.n, 1))); }
+// sparse rows (20 ones each): the hybrid echelon form starts with M4RI and hands over to PLUQ once fill-in has made the
+// rest dense (checked every 256 columns) - the hand-over has allocations of its own
+static void su_sparse(Scn &s) {
+  Mat A(s.m, s.n);
+  u64 x = s.seed + 17;
+  for (int i = 0; i < s.m; i++)
+    for (int t = 0; t < 20; t++) A.set(i, (int)(splitmix64(x) % (u64)s.n), 1);
+  s.M.push_back(make_mzd(A));
+}
 static void su_lowrank(Scn &s) {
   Mat X = s.rnd(s.m, std::max(1, std::min(s.m, s.n) / 2), 1), Y = s.rnd(std::max(1, std::min(s.m, s.n) / 2), s.n, 2);
   s.M.push_back(make_mzd(mul(X, Y)));
@@ -196,6 +205,7 @@ static const Scenario SCN[] = {
     {"echelonize_m4ri", su_lowrank, r_ech_m4ri, false},
     {"echelonize_hybrid", su_A, r_ech, false},
     {"echelonize_pluq", su_lowrank, r_ech_pluq, false},
+    {"echelonize_hybrid_handover", su_sparse, r_ech, false},
     {"top_echelonize", su_lowrank, r_top, false},
     {"ple", su_APQ, r_ple, false},
     {"pluq", su_APQ, r_pluq, false},
@@ -393,6 +403,11 @@ static std::vector<Case> enum_C20(const GenCtx &ctx) {
                            // allocation site through the many_live_* scenarios
     Case c;
     c.sets("prop", "C20").sets("op", name).set("m", 520).set("l", 520).set("n", 520).set("k", 0).setu("seed", 99);
+    v.push_back(c);
+  }
+  {
+    Case c;  // large enough for the hybrid's mid-run hand-over (needs > 512 columns and fill-in by the first density check)
+    c.sets("prop", "C20").sets("op", "echelonize_hybrid_handover").set("m", 1000).set("l", 4).set("n", 1000).set("k", 0).setu("seed", 21);
     v.push_back(c);
   }
   // more than 1024 live headers: the header cache (16 blocks of 64) is exhausted and each further header is its own allocation
